@@ -180,6 +180,57 @@ fn gen_plan_inner(prop: &str, seed: u64, rng: &mut Rng) -> Plan {
                 p.opts.max_wal_size_bytes = *rng.pick(&[1u64, 500, 4000]);
                 p.opts.max_wal_files = *rng.pick(&[0usize, 1, 3]);
             }
+            if rng.below(4) == 0 {
+                // Variant: the flush (forced by a maintenance client, or the background one) overlaps
+                // requests that are being acknowledged — each client ingests into tables of its own,
+                // some of which it creates on the way, with ops placed at the step boundaries of the
+                // flush — then everything quiesces, the database is restarted cleanly and must show
+                // every acknowledged request. (What is or is not yet covered by a partition when the
+                // cursor is persisted is decided under exactly these overlaps.)
+                p.check_each = false;
+                p.opts.wal_threads = *rng.pick(&[1usize, 2]);
+                p.opts.partition_combine_factor = *rng.pick(&[0u64, 1, 4, 999]);
+                let mut id = 1;
+                let mut shared = gen_tables(&mut rng, 1, &["s0".to_string()], &plain_names(), 3);
+                for t in shared.iter_mut() {
+                    t.with_id = true;
+                }
+                p.ops.push(Op::Ingest(gen_request(&mut rng, id, &mut shared, 8, false, true)));
+                id += 1;
+                if rng.below(2) == 0 {
+                    p.ops.push(Op::Flush);
+                }
+                let mut clients = Vec::new();
+                let nclients = 1 + rng.below(2) as usize;
+                for c in 0..nclients {
+                    let names: Vec<String> = (0..3).map(|k| format!("c{c}t{k}")).collect();
+                    let mut mine = gen_tables(&mut rng, 3, &names, &plain_names(), 3);
+                    for t in mine.iter_mut() {
+                        t.with_id = true;
+                    }
+                    let mut ops = Vec::new();
+                    for _ in 0..(2 + rng.below(4)) {
+                        ops.push(ClientOp { at: placement(&mut rng), op: Op::Ingest(gen_request(&mut rng, id, &mut mine, 6, false, false)) });
+                        id += 1;
+                    }
+                    clients.push(ClientPlan { name: format!("ingest{c}"), ops });
+                }
+                let mut ops = Vec::new();
+                for _ in 0..(1 + rng.below(3)) {
+                    ops.push(ClientOp { at: if rng.below(2) == 0 { placement(&mut rng) } else { None }, op: Op::Flush });
+                }
+                clients.push(ClientPlan { name: "maint".into(), ops });
+                p.ops.push(Op::Concurrent(clients));
+                p.ops.push(Op::CheckAll);
+                p.ops.push(Op::Restart);
+                p.ops.push(Op::CheckAll);
+                if rng.below(2) == 0 {
+                    p.ops.push(Op::Flush);
+                    p.ops.push(Op::Restart);
+                    p.ops.push(Op::CheckAll);
+                }
+                return p;
+            }
             p.extras.push(Extra::WalFiles);
             let nt = 1 + rng.below(3) as usize;
             let mut tables = gen_tables(&mut rng, nt, &tnames(4), &plain_names(), 4);
